@@ -21,52 +21,76 @@ theorem readMessage_ok (recs : List Bytes) (r : Reader) (wire : List SByte) (j :
     have hfalse : r.failed = false := by cases hr : r.failed <;> simp_all
     split at h
     · cases h
-    · next h1 =>
+    · next hpa =>
       split at h
       · cases h
-      · next h2 =>
+      · next h1 =>
         split at h
         · cases h
-        · next p hp =>
+        · next h2 =>
           split at h
           · cases h
-          · next h4 =>
+          · next p hp =>
             split at h
-            · next h5 =>
-              injection h with h
-              have e : readMessage recs r wire =
-                  (.ok (r.use / 2), { r with use := r.use + 2 },
-                    (wire.drop hdrLen).drop (p.length + macSize)) := by
-                simp only [readMessage, hf, h1, h2, hp, h4, h5, ↓reduceIte, Bool.false_eq_true]
-              rw [e]
-              exact ⟨h.symm, rfl, hfalse, hfalse⟩
             · cases h
+            · next hpb =>
+              split at h
+              · cases h
+              · next h4 =>
+                split at h
+                · next h5 =>
+                  injection h with h
+                  have e : readMessage recs r wire =
+                      (.ok (r.use / 2), { r with use := r.use + 2 },
+                        (wire.drop hdrLen).drop (p.length + macSize)) := by
+                    simp only [readMessage, hf, hpa, h1, h2, hp, hpb, h4, h5, ↓reduceIte, Bool.false_eq_true]
+                  rw [e]
+                  exact ⟨h.symm, rfl, hfalse, hfalse⟩
+                · cases h
 
+/-- after an error the reader is latched, or the wire is exhausted, or — a
+    timeout before the first byte of a record — nothing has changed at all -/
 theorem readMessage_err (recs : List Bytes) (r : Reader) (wire : List SByte)
     (h : (readMessage recs r wire).1 = .err) :
-    (readMessage recs r wire).2.1.failed = true ∨ (readMessage recs r wire).2.2 = [] := by
+    (readMessage recs r wire).2.1.failed = true ∨ (readMessage recs r wire).2.2 = [] ∨
+      (readMessage recs r wire).2.1 = r := by
   by_cases hf : r.failed = true
   · left; simp [readMessage, hf]
-  · by_cases h1 : wire.length < hdrLen
-    · right; simp [readMessage, hf, h1]
+  · have hfalse : r.failed = false := by cases hr : r.failed <;> simp_all
+    cases hpa : pauseAt hdrLen wire with
+    | some i =>
+      by_cases hi : 0 < i
+      · left; simp [readMessage, hf, hpa, hi]
+      · right; right
+        have : decide (0 < i) = false := by simpa using hi
+        simp only [readMessage, hf, hpa, this, Bool.false_eq_true, ↓reduceIte]
+        cases r; simp_all
+    | none =>
+    by_cases h1 : wire.length < hdrLen
+    · right; left; simp [readMessage, hf, hpa, h1]
     · by_cases h2 : (!opens recs r.dir r.use (wire.take hdrLen)) = true
-      · left; simp only [readMessage, hf, h1, h2, ↓reduceIte, Bool.false_eq_true]
+      · left; simp only [readMessage, hf, hpa, h1, h2, ↓reduceIte, Bool.false_eq_true]
       · cases hp : recs[r.use / 2]? with
-        | none => left; simp only [readMessage, hf, h1, h2, hp, ↓reduceIte, Bool.false_eq_true]
+        | none => left; simp only [readMessage, hf, hpa, h1, h2, hp, ↓reduceIte, Bool.false_eq_true]
         | some p =>
+          cases hpb : pauseAt (p.length + macSize) (wire.drop hdrLen) with
+          | some i => left; simp only [readMessage, hf, hpa, h1, h2, hp, hpb, ↓reduceIte, Bool.false_eq_true]
+          | none =>
           by_cases h4 : (wire.drop hdrLen).length < p.length + macSize
-          · right; simp only [readMessage, hf, h1, h2, hp, h4, ↓reduceIte, Bool.false_eq_true]
+          · left; simp only [readMessage, hf, hpa, h1, h2, hp, hpb, h4, ↓reduceIte, Bool.false_eq_true]
           · by_cases h5 : opens recs r.dir (r.use + 1) ((wire.drop hdrLen).take (p.length + macSize)) = true
             · exfalso
-              simp only [readMessage, hf, h1, h2, hp, h4, h5, ↓reduceIte, Bool.false_eq_true] at h
+              simp only [readMessage, hf, hpa, h1, h2, hp, hpb, h4, h5, ↓reduceIte, Bool.false_eq_true] at h
               cases h
-            · left; simp only [readMessage, hf, h1, h2, hp, h4, h5, ↓reduceIte, Bool.false_eq_true]
+            · left; simp only [readMessage, hf, hpa, h1, h2, hp, hpb, h4, h5, ↓reduceIte, Bool.false_eq_true]
 
 /-- **Whatever the relay does to the ciphertext, the records returned as valid —
     by any number of ReadMessage calls, also calls made after an error — are
     0, 1, 2, …, m-1 in this order: a prefix of what the authentic peer wrote in
     this direction.**  Altered, replayed, reordered or cross-direction data is
-    never returned as valid, and nothing is returned after the first error. -/
+    never returned as valid, and nothing is returned after the first error —
+    except after a read deadline that expired before any byte of a record was
+    consumed, where the retry continues with the very next record. -/
 theorem C02_prefix (recs : List Bytes) (fuel : Nat) (r : Reader) (wire : List SByte)
     (hb : r.use % 2 = 0) :
     oks (readLoop recs fuel r wire) =
@@ -110,9 +134,13 @@ theorem C02_prefix (recs : List Bytes) (fuel : Nat) (r : Reader) (wire : List SB
                 exact ih2 r' w' (Or.inl h)
               · subst h; simp at hne
         simp only [hres, oks]
-        rcases readMessage_err recs r wire hres with h | h
+        rcases readMessage_err recs r wire hres with h | h | h
         · rw [hnone _ _ _ (Or.inl h)]; simp
         · rw [hnone _ _ _ (Or.inr h)]; simp
+        · -- a timeout before the first byte of a record: same reader, the rest of the wire
+          have := ih (readMessage recs r wire).2.1 (readMessage recs r wire).2.2 (by rw [h]; exact hb)
+          rw [h] at this ⊢
+          exact this
 
 /-- corollary in the property's words: the plaintexts returned are a prefix of
     the plaintexts written -/
@@ -152,6 +180,41 @@ theorem no_latch_resync_counterexample :
 
 /-- with the latch the same wire yields nothing -/
 example : oks (readLoop [[1, 2], [7, 8, 9]] 10 ⟨0, 0, false⟩ resyncWire) = [] := by decide
+
+/-! ### a read deadline inside a record, before repair 98daed6
+
+    `ReadHeader`/`ReadBody` do not remember how far a read got.  Before the
+    repair a body read that timed out left the reader unlatched with the
+    header's nonce spent (`use` odd).  The next `ReadMessage` then takes the
+    body unit for a header: a body of 2 + 16 bytes has the size of a header and
+    authenticates under the nonce the reader is at; its plaintext is read as a
+    length, and when that plaintext is `00 02` the following 18 bytes — the
+    honest header of the next record — authenticate as the body.  The reader
+    returns the next record's length field as data.  (Found by a seeding
+    sub-agent reading the unchanged code, exhibited on the real code by the
+    `read-timeout` cases of the C02 check, repaired; `readMessage` above latches
+    on every read that fails inside a record, which keeps `use` even in every
+    unlatched state — `readMessage_err`.) -/
+def lenAsHeader (recs : List Bytes) (use : Nat) : Option Nat :=
+  match recs[use / 2]? with
+  | some p => if use % 2 = 0 then some p.length else
+      (match p with | [a, b] => some (a.toNat * 256 + b.toNat) | _ => none)
+  | none => none
+
+theorem read_timeout_counterexample :
+    let recs : List Bytes := [[0, 2], [7, 8, 9, 1, 2]]
+    let w := unitBytes 0 1 18 ++ unitBytes 0 2 18 ++ unitBytes 0 3 21   -- what follows the timed-out header of record 0
+    opens recs 0 1 (w.take hdrLen) = true ∧
+    lenAsHeader recs 1 = some 2 ∧
+    opens recs 0 2 ((w.drop hdrLen).take (2 + macSize)) = true := by decide
+
+/-- after the repair the same stream, with the pause mark where the deadline
+    expired, yields an error and nothing else; a deadline that expires between
+    two records is harmless -/
+example : oks (readLoop [[0, 2], [7, 8, 9, 1, 2]] 10 ⟨0, 0, false⟩
+    (unitBytes 0 0 18 ++ [.pause] ++ unitBytes 0 1 18 ++ unitBytes 0 2 18 ++ unitBytes 0 3 21)) = [] := by decide
+example : readLoop [[0, 2], [7, 8, 9, 1, 2]] 10 ⟨0, 0, false⟩
+    (unitBytes 0 0 18 ++ unitBytes 0 1 18 ++ [.pause] ++ unitBytes 0 2 18 ++ unitBytes 0 3 21) = [.ok 0, .err, .ok 1] := by decide
 
 /-! non-vacuity: an honest stream of two records is returned in full; a replay
     of record 0 after it is rejected -/
